@@ -184,7 +184,7 @@ def programs(tier, seed):
                         if tier == "quick" and (i * 7 + seed) % 3 != 0 and not (depth == 1 and kind == "one" and closing == "explicit_then_outer"):
                             continue
                         pid = "p%04d" % i
-                        ctx = Ctx(rng(seed, pid), itlen=2 if tier == "quick" else 3)
+                        ctx = Ctx(rng(seed, pid), itlen=3 if (tier == "thorough" and depth == 1 and kind in ("empty", "one")) else 2)
                         inp = ctx.value(t)
                         w = make_wrapper(ctx, t, depth, kind, explicit=(closing == "explicit_then_outer"), want=tok)
                         if w is None:
@@ -253,7 +253,7 @@ META = dict(
          "implicit at end of branch, implicit at a ~ step boundary then outer operators); quick tier keeps one third (seed-rotated) plus every (operator, type) at depth 1; each compared with "
          "the hand-nested method chain on symbolic inputs incl. callback traces; packed 8 per query; disagreements_checked = programs discharged",
     functions_encoded=["expansions with >>> / <<< (parse_until wrapper detection, ActionGroup::to_wrapper_action_expr, JoinOutput::process_step_action_expr, wrap_last_step_stream, leftovers closed at step end)"],
-    bounds=["nesting depth <= 3", "inner chain <= 2 operators", "iterators 2 (quick) / 3 elements", "macros join!, try_join!, join_spawn!"],
+    bounds=["nesting depth <= 3", "inner chain <= 2 operators", "iterators of 2 elements (thorough: 3 for depth-1 wrappers with at most one inner operator)", "macros join!, try_join!, join_spawn!"],
     outside=["`~` inside an open wrapper", "rejection cases (`>>>` on non-wrapper operators, `>>>` + `<<<`): see DESIGN.md 4"],
     assumptions=["reference renderings of DESIGN.md Appendix A", "thread model for join_spawn!"],
 )
